@@ -42,6 +42,7 @@ type violationRec struct {
 	Notes   []string          `json:"notes"`
 	Where   string            `json:"where"`
 	Count   int               `json:"count"`
+	PoolChoices int           `json:"pool_choices"` // sync.Pool.Get decisions on the path (cannot be forced natively)
 }
 
 type inputVal struct {
@@ -114,6 +115,7 @@ type machine struct {
 	fnSeen       map[*ssa.Function]bool
 	uninit       map[*value]string
 	lazyInits    int
+	poolChoices  int
 	wraps        map[*extErr]*wrapErr
 	chosen       map[string]uint64
 	poolMode     int
@@ -386,6 +388,7 @@ func (m *machine) resetPathState(prefix []int64, mdl model) {
 	m.known = map[*term]bool{}
 	m.racy = nil
 	m.hangCheck = false
+	m.poolChoices = 0
 	m.maxSteps = m.world.cfg.maxSteps
 	m.resetEnvModels()
 }
@@ -644,7 +647,7 @@ func (m *machine) violationWith(label, discr, msg string, mdl model) {
 		}
 		mdl = md
 	}
-	rec := &violationRec{Label: label, Discr: discr, Msg: msg, Harness: m.harness, Inputs: m.inputsUnder(mdl),
+	rec := &violationRec{PoolChoices: m.poolChoices, Label: label, Discr: discr, Msg: msg, Harness: m.harness, Inputs: m.inputsUnder(mdl),
 		Decs: append([]int64(nil), m.decs...), Notes: append([]string(nil), m.notes...), Where: m.curPos(), Count: 1}
 	m.res.mu.Lock()
 	key := m.harness + "|" + label + "|" + discr
